@@ -85,8 +85,16 @@ def run(module, cfg=None, *, workers=16, timeout=1800, simulate=None, depth=None
     if env:
         e.update({k: str(v) for k, v in env.items()})
     t0 = time.time()
+    def _unlimit():
+        # the JVM reserves a large address space; vf.main only lowers the soft limit
+        try:
+            import resource
+            soft, hard = resource.getrlimit(resource.RLIMIT_AS)
+            resource.setrlimit(resource.RLIMIT_AS, (hard, hard))
+        except Exception:  # noqa
+            pass
     proc = subprocess.Popen(cmd, cwd=spec_dir, env=e, stdout=subprocess.PIPE,
-                            stderr=subprocess.STDOUT, text=True, bufsize=1 << 20)
+                            stderr=subprocess.STDOUT, text=True, bufsize=1 << 20, preexec_fn=_unlimit)
     tail = []
     in_error = False
     err_lines = []
